@@ -570,6 +570,15 @@ def saved_fill_checks(tier):
     return viol, notes
 
 
+def _late(tier):
+    from symx import envsweep
+    rv, notes = saved_fill_checks(tier)
+    ev, _, extra = envsweep.late([
+        ('stations_in_two_models', 'one entry per request in request order, each with the values of its own cell',
+         lambda v: all(m['selected'] == m['want'] and m['labels'] == [0, 1, 2] and m['extracted'] == m['want'] + [None] for m in v.values()))])()
+    return rv + ev, [], dict(saved_fill=notes, **extra)
+
+
 def run(tier, seed=0, replay=None, procs=None, only=None):
     if replay:
         import json
@@ -588,7 +597,7 @@ def run(tier, seed=0, replay=None, procs=None, only=None):
     q = tier == 'quick'
     return main_run(
         PROP, tier, cs, functions=functions(), seed=seed, procs=procs,
-        late_checks=(lambda: (lambda rv, notes: (rv, [], dict(saved_fill=notes)))(*saved_fill_checks(tier))) if not only else None,
+        late_checks=(lambda: _late(tier)) if not only else None,
         bounds=dict(
             datasets='one dataset per convention (2x2 grids, mesh tqp) with float variables on every grid kind (extra dimension '
                      'first/last, transposed), an int32 variable, a non-spatial variable and the geometry variables',
